@@ -1397,6 +1397,128 @@ class ModFn(MethFn):
         return f"Definition gen_{fd.name.strip('_')} {' '.join(ps)} : {rt} :=\n  {body}.", ([], self.rett)
 
 
+class ParseFn(ProcFn):
+    """split_netloc of yarl/_parse.py: string surgery with partition / rpartition.
+    [a, b, c = x.partition("c")] binds the text before, whether the separator was found (a bool: the
+    source only tests it), and the text after (Base.PyStr.partition / rpartition); [_] targets are
+    dropped.  [x or None] is or_none.  [x.isascii()], [x.isdigit()] are Python's predicates
+    (isdigit is false on the empty string).  [int(x)] is accepted ONLY on a path on which
+    [if not (x.isascii() and x.isdigit()): raise ...] has already been passed - there it is the
+    value of a non-empty string of ASCII digits, N_of_digits, and cannot raise, so the enclosing
+    [try: ... except ValueError: raise ValueError] is transparent; any other use of int() fails closed.
+    The result is the 4-tuple (user, password, host, port)."""
+
+    def expr(self, e, env):
+        # x or None
+        if isinstance(e, ast.BoolOp) and isinstance(e.op, ast.Or) and len(e.values) == 2 \
+                and isinstance(e.values[1], ast.Constant) and e.values[1].value is None:
+            a, ta = self.expr(e.values[0], env)
+            if ta == "str":
+                return f"(or_none {a})", "optstr"
+            if ta == "optstr":
+                return f"(match {a} with Some u0 => or_none u0 | None => None end)", "optstr"
+            if ta == "none":
+                return "None", "none"
+            raise Untranslatable("or None on " + ta)
+        return super().expr(e, env)
+
+    def cond_bool(self, test, env):
+        if isinstance(test, ast.Call) and isinstance(test.func, ast.Attribute) and isinstance(test.func.value, ast.Name) \
+                and env.get(test.func.value.id) == "str" and not test.args and not test.keywords:
+            x = test.func.value.id
+            if test.func.attr == "isascii":
+                return f"(isascii {x})"
+            if test.func.attr == "isdigit":
+                return f"(nonempty {x} && forallb py_isdigit {x})"
+        # 0 <= n <= 65535 on a natural number
+        if isinstance(test, ast.Compare) and len(test.ops) == 2 and all(isinstance(o, ast.LtE) for o in test.ops) \
+                and isinstance(test.left, ast.Constant) and test.left.value == 0 and isinstance(test.comparators[0], ast.Name) \
+                and env.get(test.comparators[0].id) == "int" and isinstance(test.comparators[1], ast.Constant) \
+                and isinstance(test.comparators[1].value, int):
+            return f"({test.comparators[0].id} <=? {test.comparators[1].value})"
+        return super().cond_bool(test, env)
+
+    def stmts(self, body, env, rec):
+        if not body:
+            raise Untranslatable("a path falls off the end of the function")
+        st, rest = body[0], body[1:]
+        # x: T = None
+        if isinstance(st, ast.AnnAssign) and isinstance(st.target, ast.Name) and isinstance(st.value, ast.Constant) and st.value.value is None:
+            e1 = dict(env)
+            e1[st.target.id] = "none"
+            return self.stmts(rest, e1, rec)
+        # a, b, c = x.partition("c") / x.rpartition("c")
+        if isinstance(st, ast.Assign) and len(st.targets) == 1 and isinstance(st.targets[0], ast.Tuple) and isinstance(st.value, ast.Call) \
+                and isinstance(st.value.func, ast.Attribute) and st.value.func.attr in ("partition", "rpartition") \
+                and len(st.value.args) == 1 and not st.value.keywords and len(st.targets[0].elts) == 3 \
+                and all(isinstance(x, ast.Name) for x in st.targets[0].elts):
+            a, ta = self.expr(st.value.func.value, env)
+            if ta != "str":
+                raise Untranslatable("partition of " + ta)
+            names = [x.id for x in st.targets[0].elts]
+            e1 = dict(env)
+            pats = []
+            for nm, t in zip(names, ("str", "bool", "str")):
+                if nm == "_":
+                    pats.append("_")
+                else:
+                    pats.append(nm)
+                    e1[nm] = t
+            return f"(let '({', '.join(pats)}) := {st.value.func.attr} {one_char(st.value.args[0])} {a} in {self.stmts(rest, e1, rec)})"
+        # if not (x.isascii() and x.isdigit()): raise ...      (records that x is a non-empty string of ASCII digits afterwards)
+        if isinstance(st, ast.If) and not st.orelse and len(st.body) == 1 and isinstance(st.body[0], ast.Raise) \
+                and isinstance(st.test, ast.UnaryOp) and isinstance(st.test.op, ast.Not) and isinstance(st.test.operand, ast.BoolOp) \
+                and isinstance(st.test.operand.op, ast.And) and len(st.test.operand.values) == 2:
+            u = [ast.unparse(v) for v in st.test.operand.values]
+            m = [x for x in env if env[x] == "str" and sorted(u) == sorted([f"{x}.isascii()", f"{x}.isdigit()"])]
+            if m:
+                c = self.cond_bool(st.test, env)
+                e1 = dict(env)
+                e1["%digits:" + m[0]] = True
+                return f"(if {c} then {self.stmts(list(st.body), env, rec)} else {self.stmts(rest, e1, rec)})"
+        # try: n = int(x) except ValueError: raise ValueError(...)       with x known to be ASCII digits
+        if isinstance(st, ast.Try) and len(st.body) == 1 and not st.orelse and not st.finalbody and len(st.handlers) == 1 \
+                and ast.unparse(st.handlers[0].type) == "ValueError" and len(st.handlers[0].body) == 1 \
+                and isinstance(st.handlers[0].body[0], ast.Raise) and isinstance(st.body[0], ast.Assign) \
+                and len(st.body[0].targets) == 1 and isinstance(st.body[0].targets[0], ast.Name) \
+                and isinstance(st.body[0].value, ast.Call) and ast.unparse(st.body[0].value.func) == "int" \
+                and len(st.body[0].value.args) == 1 and isinstance(st.body[0].value.args[0], ast.Name) and not st.body[0].value.keywords:
+            x = st.body[0].value.args[0].id
+            if not env.get("%digits:" + x):
+                raise Untranslatable("int() of a string that is not known to consist of ASCII digits")
+            n = st.body[0].targets[0].id
+            e1 = dict(env)
+            e1[n] = "int"
+            return f"(let {n} : N := N_of_digits {x} in {self.stmts(rest, e1, rec)})"
+        if isinstance(st, ast.Return) and isinstance(st.value, ast.Tuple) and len(st.value.elts) == 4:
+            parts = [self.expr(x, env) for x in st.value.elts]
+            want = ("optstr", "optstr", "optstr", "optint")
+            return "(Ok (" + ", ".join(self.coerce(v, t, w) for (v, t), w in zip(parts, want)) + "))"
+        if isinstance(st, ast.Assign) and len(st.targets) == 1 and isinstance(st.targets[0], ast.Name) \
+                and isinstance(st.value, ast.Constant) and st.value.value is None:
+            e1 = dict(env)
+            e1[st.targets[0].id] = "none"
+            return self.stmts(rest, e1, rec)
+        return super().stmts(body, env, rec)
+
+    def translate(self, fd):
+        if fd.args.vararg or fd.args.kwarg or fd.args.kwonlyargs or fd.args.posonlyargs or fd.args.defaults:
+            raise Untranslatable("signature of " + fd.name)
+        for d in fd.decorator_list:
+            if ast.unparse(d).split("(")[0] not in ("lru_cache", "functools.lru_cache"):
+                raise Untranslatable("decorator " + ast.unparse(d))
+        env, params = {}, []
+        for a in fd.args.args:
+            if a.annotation is None or ast.unparse(a.annotation) != "str":
+                raise Untranslatable("parameter " + a.arg)
+            env[a.arg] = "str"
+            params.append(a.arg)
+        body = self.stmts(list(fd.body), env, {})
+        ps = " ".join(f"({n} : str)" for n in params)
+        return (f"Definition gen_{fd.name} {ps} : result (option str * option str * option str * option N) :=\n  {body}.",
+                (["str"] * len(params), "tuple4"))
+
+
 SOURCES = [
     # (source file, output module, header imports, tables usable in "x in TABLE", functions with stub signatures)
     ("_path.py", "PathGen", "From Yarl Require Export Base.PyStr.", (),
@@ -1405,6 +1527,8 @@ SOURCES = [
     ("_parse.py", "ParseGen", "From Yarl Require Export Base.PyStr Generated.Tables.", ("USES_AUTHORITY",),
      [("unsplit_result", "(scheme netloc url query fragment : str) : str", "[]"),
       ("make_netloc", "(q : str -> str) (user password host : option str) (port : option N) (encode : bool) : str", "[]", {"QUOTER": "q"})]),
+    ("_parse.py", "NetlocGen", "From Yarl Require Export Base.PyStr Generated.Tables Model.Parse Model.Host Model.Url.", (),
+     [("split_netloc", "(netloc : str) : result (option str * option str * option str * option N)", "Err OtherError", "parse")]),
     ("_url.py", "UrlGen",
      "From Coq Require Import ZArith.\nFrom Yarl Require Export Base.PyStr Generated.Tables Model.Parse Model.Host Model.Quoters Model.Path Model.Url Model.GenTypes.\n"
      "Section G.\nVariable O : oracles.\nVariable B : backend.", (),
@@ -1468,7 +1592,9 @@ def generate_one(repo, fname, header, tables, wanted):
         try:
             if name not in fds:
                 raise Untranslatable("function " + name + " not found")
-            if tree and tree[0] == "mod":
+            if tree and tree[0] == "parse":
+                text, ty = ParseFn().translate(fds[name])
+            elif tree and tree[0] == "mod":
                 m = ModFn(tree[1], methods)
                 m.portarg = len(tree) > 2 and tree[2] == "portarg"
                 text, ty = m.translate(fds[name])
